@@ -124,6 +124,21 @@ Example C16_cleanjoin_ex :
 Proof. exact cleanjoin_example. Qed.
 Print Assumptions C16_cleanjoin_ex.
 
+(* the file name ChartDownloader.DownloadTo derives from the URL path (after fix cd986f1):
+   a single path element, never "." or "..", so the join with the destination stays below it *)
+Theorem C16_download_confined :
+  forall (upath name d : string), download_name upath = Some name -> d <> "" ->
+  name <> "." /\ name <> ".." /\ contains_char slash name = false /\
+  clean_comps (d ++ "/" ++ name) = (clean_comps d ++ (if String.eqb name "" then [] else [name]))%list.
+Proof. exact download_confined. Qed.
+Print Assumptions C16_download_confined.
+
+Example C16_download_ex :
+  download_name "/charts/x-1.0.0.tgz" = Some "x-1.0.0.tgz" /\ download_name "/charts/../../x.tgz" = Some "x.tgz" /\
+  download_name "/charts/.." = None /\ download_name "/" = None /\ download_name "/charts/." = None.
+Proof. exact download_examples. Qed.
+Print Assumptions C16_download_ex.
+
 (* ---------- lock file ---------- *)
 (* writeLock (after fix 2970e48) on any file system: it fails, or it changes nothing but
    the lock path, which ends up a regular file with the new content and was absent or a
